@@ -28,6 +28,7 @@ func init() {
 			"R3 refusal: every function with constant accesses to a []byte parameter has a length guard covering its largest bound (unexported functions: every call site passes a constant-width slice of sufficient width); narrowing integer conversions in writers are preceded by a range check of the source that returns an error. " +
 			"R4 stream codecs: for every type with a Marshal/Unmarshal (or MarshalToBytes/UnmarshalFromBytes) pair the ordered field sequences agree; fixed-size HOB writers return the sum of the static sizes of what they write. " +
 			"R5 read counts: every io.Reader.Read call in eventlog and ovmf/abi has its count compared with the requested length (or is io.ReadFull). " +
+			"R12 a …FromBytes decoder that reads its input through a bytes reader returns success only after draining it (io.ReadAll or Len() == 0). " +
 			"R11 a stream decoder accepts io.EOF as the end of input only when it comes from a primitive read made directly in that function (the first bytes of the next record), never from a multi-field decoder. " +
 			"R10 no decoder of the stream codec packages calls Reader.Read directly; fixed-size fields are read with io.ReadFull / binary.Read / io.ReadAll. " +
 			"R9 an encoder method (Marshal*, Put*, WriteTo, Bytes) of the codec packages never writes through its receiver. " +
@@ -705,6 +706,103 @@ func runC18(c *Ctx) {
 		c.S.Floor("R11", "places where a stream decoder accepts io.EOF as the end of input", 1, nEOF)
 	}
 
+	// ---------------- R12 whole-input decoders look at every input byte ----------------
+	// A decoder that takes "the whole of the input slice" (a function of the stream codec packages named …FromBytes
+	// that wraps its []byte parameter in a bytes.Buffer / bytes.Reader) returns success only after the reader was
+	// drained: every nil-error return is dominated by io.ReadAll on that reader, or by the edge "reader.Len() == 0".
+	// A trailer check that looks at a fixed number of bytes (Next(7)) accepts `record ‖ zeros ‖ anything`, which does
+	// not re-encode to itself.
+	{
+		nWhole := 0
+		for _, f := range c.P.RepoFunctions() {
+			switch load.RelPkg(f) {
+			case "eventlog", "extract/eventlog":
+			default:
+				continue
+			}
+			if c.isTestFunc(f) || !strings.HasSuffix(f.Name(), "FromBytes") || errIndex(f.Signature) < 0 {
+				continue
+			}
+			// the reader built over a []byte parameter
+			var rd ssa.Value
+			for _, call := range callsIn(f, func(call ssa.CallInstruction) bool {
+				cal := call.Common().StaticCallee()
+				return cal != nil && (cal.String() == "bytes.NewBuffer" || cal.String() == "bytes.NewReader") && len(call.Common().Args) == 1
+			}) {
+				a := call.Common().Args[0]
+				for i := 0; i < 4; i++ {
+					if sl, ok := a.(*ssa.Slice); ok {
+						a = sl.X
+					}
+				}
+				if _, isParam := a.(*ssa.Parameter); isParam {
+					rd = call.Value()
+				}
+			}
+			if rd == nil {
+				continue
+			}
+			nWhole++
+			isRd := func(v ssa.Value) bool {
+				for i := 0; i < 4; i++ {
+					switch x := v.(type) {
+					case *ssa.MakeInterface:
+						v = x.X
+					case *ssa.ChangeInterface:
+						v = x.X
+					}
+				}
+				return v == rd
+			}
+			drained := map[*ssa.BasicBlock]bool{}
+			for _, b := range f.Blocks {
+				for _, in := range b.Instrs {
+					if call, ok := in.(*ssa.Call); ok {
+						if cal := call.Call.StaticCallee(); cal != nil && cal.String() == "io.ReadAll" && isRd(call.Call.Args[0]) {
+							drained[b] = true
+						}
+					}
+				}
+			}
+			ei := errIndex(f.Signature)
+			bad := 0
+			for _, b := range f.Blocks {
+				ret, ok := b.Instrs[len(b.Instrs)-1].(*ssa.Return)
+				if !ok {
+					continue
+				}
+				if k, isK := ret.Results[ei].(*ssa.Const); !isK || !k.IsNil() {
+					continue
+				}
+				okDrain := false
+				for d := b; d != nil; d = d.Idom() {
+					if drained[d] {
+						okDrain = true
+					}
+				}
+				for _, cf := range dominatingConds(b) {
+					bo, ok := cf.Cond.(*ssa.BinOp)
+					if !ok || (bo.Op != token.EQL && bo.Op != token.NEQ) || !isZeroInt(bo.Y) {
+						continue
+					}
+					if call, ok := bo.X.(*ssa.Call); ok {
+						if cal := call.Call.StaticCallee(); cal != nil && cal.Name() == "Len" && len(call.Call.Args) == 1 && call.Call.Args[0] == rd && (bo.Op == token.EQL) == cf.Val {
+							okDrain = true
+						}
+					}
+				}
+				if !okDrain {
+					bad++
+					c.S.Bad("R12", load.FuncName(f)+":input consumed", c.pos(ret.Pos()), "the decoder of the whole input may return success without having drained its reader (no io.ReadAll, no Len() == 0 edge on this path): bytes behind what it looked at are silently ignored, so an accepted input does not re-encode to itself")
+				}
+			}
+			if bad == 0 {
+				c.S.OK("R12", load.FuncName(f)+":input consumed", c.pos(f.Pos()), "every successful return follows io.ReadAll / Len() == 0 on the input reader", true)
+			}
+		}
+		c.S.Floor("R12", "whole-input stream decoders (…FromBytes over a reader)", 1, nWhole)
+	}
+
 	// ---------------- R9 encoders do not write the value they encode ----------------
 	// A method of the codec packages that encodes its receiver (Marshal*, Put*, WriteTo, Bytes) performs no store,
 	// element assignment or copy whose destination is reached from the receiver: encoding a value twice gives the
@@ -1379,4 +1477,9 @@ func hasAffineRangeCheck(info *types.Info, fd *ast.FuncDecl, at ast.Node, src as
 		return true
 	})
 	return found
+}
+
+func isZeroInt(v ssa.Value) bool {
+	k, ok := v.(*ssa.Const)
+	return ok && isZeroIntConst(k)
 }
